@@ -2,7 +2,7 @@
 """Confirms sub-agent seeded changes in their scratch worktrees and files them under /verif/seeded/.
 For each /tmp/seed/<Cxx>.out/{a,b}.patch: demo passes on the unchanged tree, fails with the patch, and
 the library's own 242 unit tests stay green with the patch. usage: verify_seeds.py [--round2] C05 C06 ...
-(--round2: worktrees under /tmp/seed2, filed as <Cxx>-c / <Cxx>-d; --round3: /tmp/seed3, <Cxx>-e / <Cxx>-f; --round4: /tmp/seed4, <Cxx>-g / <Cxx>-h; --round5: /tmp/seed5, <Cxx>-i / <Cxx>-j; --round6: /tmp/seed6, <Cxx>-k / <Cxx>-l; --round7: /tmp/seed7, <Cxx>-m / <Cxx>-n; --round8: /tmp/seed8, <Cxx>-o / <Cxx>-p; --round9: /tmp/seed9, <Cxx>-q / <Cxx>-r; --round10: /tmp/seed10, <Cxx>-s / <Cxx>-t)"""
+(--round2: worktrees under /tmp/seed2, filed as <Cxx>-c / <Cxx>-d; --round3: /tmp/seed3, <Cxx>-e / <Cxx>-f; --round4: /tmp/seed4, <Cxx>-g / <Cxx>-h; --round5: /tmp/seed5, <Cxx>-i / <Cxx>-j; --round6: /tmp/seed6, <Cxx>-k / <Cxx>-l; --round7: /tmp/seed7, <Cxx>-m / <Cxx>-n; --round8: /tmp/seed8, <Cxx>-o / <Cxx>-p; --round9: /tmp/seed9, <Cxx>-q / <Cxx>-r; --round10: /tmp/seed10, <Cxx>-s / <Cxx>-t; --round11: /tmp/seed11, <Cxx>-u / <Cxx>-v)"""
 import json, os, shutil, subprocess, sys, re
 def sh(cmd, cwd=None, timeout=3600):
     return subprocess.run(cmd, shell=True, capture_output=True, text=True, cwd=cwd, timeout=timeout)
@@ -18,8 +18,9 @@ R7 = '--round7' in sys.argv
 R8 = '--round8' in sys.argv
 R9 = '--round9' in sys.argv
 R10 = '--round10' in sys.argv
-BASE = '/tmp/seed10' if R10 else '/tmp/seed9' if R9 else '/tmp/seed8' if R8 else '/tmp/seed7' if R7 else '/tmp/seed6' if R6 else '/tmp/seed5' if R5 else '/tmp/seed4' if R4 else '/tmp/seed3' if R3 else '/tmp/seed2' if R2 else '/tmp/seed'
-LETTER = {'a': 's', 'b': 't'} if R10 else {'a': 'q', 'b': 'r'} if R9 else {'a': 'o', 'b': 'p'} if R8 else {'a': 'm', 'b': 'n'} if R7 else {'a': 'k', 'b': 'l'} if R6 else {'a': 'i', 'b': 'j'} if R5 else {'a': 'g', 'b': 'h'} if R4 else {'a': 'e', 'b': 'f'} if R3 else {'a': 'c', 'b': 'd'} if R2 else {'a': 'a', 'b': 'b'}
+R11 = '--round11' in sys.argv
+BASE = '/tmp/seed11' if R11 else '/tmp/seed10' if R10 else '/tmp/seed9' if R9 else '/tmp/seed8' if R8 else '/tmp/seed7' if R7 else '/tmp/seed6' if R6 else '/tmp/seed5' if R5 else '/tmp/seed4' if R4 else '/tmp/seed3' if R3 else '/tmp/seed2' if R2 else '/tmp/seed'
+LETTER = {'a': 'u', 'b': 'v'} if R11 else {'a': 's', 'b': 't'} if R10 else {'a': 'q', 'b': 'r'} if R9 else {'a': 'o', 'b': 'p'} if R8 else {'a': 'm', 'b': 'n'} if R7 else {'a': 'k', 'b': 'l'} if R6 else {'a': 'i', 'b': 'j'} if R5 else {'a': 'g', 'b': 'h'} if R4 else {'a': 'e', 'b': 'f'} if R3 else {'a': 'c', 'b': 'd'} if R2 else {'a': 'a', 'b': 'b'}
 for pid in [a for a in sys.argv[1:] if not a.startswith('--')]:
     wt = f'{BASE}/{pid}'; out = f'{BASE}/{pid}.out'
     readme = open(out + '/README.md').read() if os.path.exists(out + '/README.md') else ''
